@@ -112,6 +112,12 @@ class Module:
                     if isinstance(s2, (ast.FunctionDef, ast.AsyncFunctionDef)):
                         fi = self._add_func(s2, ci, f"{st.name}.{s2.name}")
                         ci.methods[s2.name] = fi
+                # class-level aliases of methods:  enterB = enterA  /  enterB = enterC = _helper
+                for s2 in st.body:
+                    if isinstance(s2, ast.Assign) and isinstance(s2.value, ast.Name) and s2.value.id in ci.methods:
+                        for t in s2.targets:
+                            if isinstance(t, ast.Name):
+                                ci.methods[t.id] = ci.methods[s2.value.id]
             elif isinstance(st, ast.Assign):
                 for t in st.targets:
                     if isinstance(t, ast.Name):
